@@ -369,10 +369,17 @@ type stateFn func(*Scanner) (stateFn, error)
 // that handles the entire packfile header.
 func packHeaderSignature(r *Scanner) (stateFn, error) {
 	start := make([]byte, 4)
-	n, err := r.Read(start)
+	// The four bytes may arrive in pieces (a slow network peer, or a pack
+	// writer that has only flushed part of them so far): a short read is not
+	// a bad signature.
+	n, err := io.ReadFull(r, start)
 	if err != nil {
 		if n == 0 && err == io.EOF {
 			return nil, ErrEmptyPackfile
+		}
+		if errors.Is(err, io.ErrUnexpectedEOF) {
+			// the stream ended inside the signature
+			return nil, fmt.Errorf("%w: %w", ErrMalformedPackfile, ErrBadSignature)
 		}
 		return nil, fmt.Errorf("read signature: %w", err)
 	}
